@@ -34,6 +34,12 @@ type PropConfig struct {
 	OnlyKinds []string `json:"only_kinds"`
 	// Ignore: obligations of these functions that belong to another property's claim
 	Ignore []string `json:"ignore"`
+	// ExactKinds: with only_kinds, postconditions are not kept implicitly (they belong to the
+	// properties that own those functions); used by the frame-only check of C03
+	ExactKinds bool `json:"exact_kinds"`
+	// FrameOnly: further functions of which only the frame.* obligations belong to this
+	// property (their other obligations are decided by the properties that own them)
+	FrameOnly []string `json:"frame_only"`
 }
 
 type KnownFinding struct {
@@ -156,9 +162,10 @@ func checkProperty(e *engine.Engine, verif, id, tier string, seed int, loadS flo
 		defer os.RemoveAll(scratch)
 	}
 	type job struct {
-		key   string
-		lemma bool
-		rep   *engine.FuncReport
+		key       string
+		lemma     bool
+		frameOnly bool
+		rep       *engine.FuncReport
 	}
 	var jobs []*job
 	for _, f := range cfg.Functions {
@@ -166,6 +173,9 @@ func checkProperty(e *engine.Engine, verif, id, tier string, seed int, loadS flo
 	}
 	for _, f := range cfg.SafetyOnly {
 		jobs = append(jobs, &job{key: f})
+	}
+	for _, f := range cfg.FrameOnly {
+		jobs = append(jobs, &job{key: f, frameOnly: true})
 	}
 	for _, l := range cfg.Lemmas {
 		jobs = append(jobs, &job{key: l, lemma: true})
@@ -192,6 +202,17 @@ func checkProperty(e *engine.Engine, verif, id, tier string, seed int, loadS flo
 		}
 		j.rep = e.VerifyFunction(fn)
 	}
+	for _, j := range jobs {
+		if j.rep == nil || !j.frameOnly {
+			continue
+		}
+		for _, ob := range j.rep.Obligations {
+			if !strings.HasPrefix(ob.Kind, "frame.") && ob.Kind != "vacuity" {
+				ob.Static = true
+				ob.Status = "skipped"
+			}
+		}
+	}
 	if len(cfg.OnlyKinds) > 0 || len(cfg.Ignore) > 0 {
 		keep := map[string]bool{}
 		for _, k := range cfg.OnlyKinds {
@@ -206,7 +227,7 @@ func checkProperty(e *engine.Engine, verif, id, tier string, seed int, loadS flo
 				continue
 			}
 			for _, ob := range j.rep.Obligations {
-				if (len(cfg.OnlyKinds) > 0 && !keep[ob.Kind] && !strings.HasPrefix(ob.Kind, "ensures")) || ign[ob.Name] {
+				if (len(cfg.OnlyKinds) > 0 && !keep[ob.Kind] && ob.Kind != "vacuity" && (cfg.ExactKinds || !strings.HasPrefix(ob.Kind, "ensures"))) || ign[ob.Name] {
 					ob.Static = true
 					ob.Status = "skipped"
 				}
